@@ -166,6 +166,31 @@ def quote_in_python(k: int, k2: int, w: int) -> bool:
     return True
 
 
+PAIR_NAMES = ["a b", "a-b", "a.b", "foo", "foo bar", "a", "a!", "a!b", "x y", "x_y", "1a", "_1a", "if", "b a"]
+
+
+def quote_pairs(i: int, j: int, w: int) -> bool:
+    """
+    pre: 0 <= i < 14 and 0 <= j < 14 and 0 <= w < 3 and i == __SHARD__
+    post: _
+    """
+    # TWO quoted names in one Python fragment: each stays itself (names whose sanitised forms coincide, a name that is a prefix
+    # or a word of the other, a name that equals a plain identifier used next to it)
+    i, j, w = _pick(i, 0, 13), _pick(j, 0, 13), _pick(w, 0, 2)
+    a, b = "`" + PAIR_NAMES[i] + "`", "`" + PAIR_NAMES[j] + "`"
+    src = ["I({} + {})", "f({}, {}, x_y)", "{{{} * 2 - {}}}"][w].format(a, b)
+    from formulaic.formula import Formula
+
+    f = Formula.from_spec(src)
+    terms = [[fa.expr for fa in t.factors] for t in f]
+    want = src[1:-1] if src.startswith("{") else src
+    bare = lambda e: re.sub(r"`([A-Za-z_][A-Za-z_0-9]*)`", lambda m: m.group(1), e)
+    if not (len(terms) == 2 and terms[0] == ["1"] and len(terms[1]) == 1 and bare(terms[1][0]) == bare(want)):
+        return False
+    need = {PAIR_NAMES[i], PAIR_NAMES[j]} | ({"x_y"} if w == 1 else set())
+    return {str(v) for v in f.required_variables} == need
+
+
 def quote_python(c: str) -> bool:
     """
     pre: 1 <= len(c) <= __N__
@@ -329,6 +354,9 @@ def explain(fname, call):
         if fname == "quote_in_python":
             n = NAME_CHARS[a[0]] + (NAME_CHARS[a[1]] if a[1] < 101 else "")
             return f"quoting-in-python: the fragment {PY_WRAPPERS[a[2]].format('`' + n + '`')!r} is not taken as written"
+        if fname == "quote_pairs":
+            src = ["I({} + {})", "f({}, {}, x_y)", "{{{} * 2 - {}}}"][a[2]].format("`" + PAIR_NAMES[a[0]] + "`", "`" + PAIR_NAMES[a[1]] + "`")
+            return f"quoting-in-python: in the fragment {src!r} the two quoted names do not both stay themselves"
         if fname == "pylit":
             text = "".join(LIT_ALPHABET[c] for c in a[1:5] if c < 13)
             return f"string-literal-changed: the literal {text!r} written inside a Python fragment ({['call', 'brace-quoted subscript'][a[5]]}) is not the literal the factor evaluates"
